@@ -423,11 +423,17 @@ func gmLeaf(r *rng, s *sink) []byte {
 	if r.chance(1, 12) {
 		size = 1 + r.intn(255)
 	}
+	if (t.ch == 'U' || t.ch == 'G') && r.chance(1, 5) {
+		// a structure size other than the type's own 16 bytes, with any repeat (the number of values
+		// follows from the payload's length, not from the repeat)
+		size = pick(r, []int{1, 4, 8, 12, 15, 17, 32, 0})
+		s.count("gm.fixed16.odd_size")
+	}
 	count := r.intn(5)
 	if r.chance(1, 10) {
 		count = r.intn(40)
 	}
-	if size*count > 2000 {
+	if size > 0 && size*count > 2000 {
 		count = 2000 / size
 	}
 	if gmBig && r.chance(1, gmBigOneIn) {
@@ -443,6 +449,9 @@ func gmLeaf(r *rng, s *sink) []byte {
 				size = pick(r, []int{1, 2, 7, 200, 255})
 			}
 			s.count("gm.big_strings")
+		}
+		if size == 0 {
+			size = t.w
 		}
 		count = (65536+r.intn(9000)-3000)/size + 1
 		if count > 65535 {
